@@ -1045,6 +1045,9 @@ def cmd_harness(args):
                                                    os.path.basename(ob["file"]), ob["line"]))
         if fl:
             rc = 1
+            # which property checks would report this harness (attribution rules of failures())
+            flagged = [q for q in sorted(set(r.spec["props"])) if failures(r, q)]
+            print("   FLAGS    %s" % ",".join(flagged))
         for lab in explain:
             for ob in r.obligations:
                 if (ob["label"] == lab or ob["id"] == lab) and ob["status"] != "SUCCESS":
